@@ -9,7 +9,7 @@ use serde::{Deserialize, Serialize};
 pub const LOCALS: [&str; 8] = ["a", "b", "c", "d", "e", "f", "A", "id"];
 pub const URIS: [&str; 4] = ["urn:x", "urn:y", "urn:z", "urn:w?a=1&b=\"2\""];
 pub const PREFIXES: [&str; 3] = ["p", "q", "r"];
-pub const TEXTS: [&str; 16] = ["t", "x y", " ", "hello", "<&>", "é", "a]]>b", "  \n ", "1", "\"q'", "zz", "\u{1F600}", "a\rb", "]]", ">", "a long run of character data, long enough to cross the small-string and buffer sizes that short samples never reach; 0123456789 0123456789 0123456789 0123456789 0123456789 0123456789 <&> \u{1F600} end"];
+pub const TEXTS: [&str; 17] = ["a]]]>b", "t", "x y", " ", "hello", "<&>", "é", "a]]>b", "  \n ", "1", "\"q'", "zz", "\u{1F600}", "a\rb", "]]", ">", "a long run of character data, long enough to cross the small-string and buffer sizes that short samples never reach; 0123456789 0123456789 0123456789 0123456789 0123456789 0123456789 <&> \u{1F600} end"];
 pub const ATTR_VALUES: [&str; 10] = ["v", "", "x y", "<&\">", "é", "w'w", "1", "long value here", " a1 ", "first  second"];
 pub const COMMENTS: [&str; 5] = ["c", " note ", "", "a-b", "<x>"];
 pub const PI_TARGETS: [&str; 3] = ["pi", "target", "x-y"];
